@@ -102,7 +102,8 @@ def structural_freshness(repo):
     return out
 
 
-STRUCTURAL = [structural_freshness]
+from contracts.common import structural_signature_key as _sigkey
+STRUCTURAL = [structural_freshness, _sigkey]
 NOT_DECIDED = [
     'parso.cache.load_module mtime comparison and pickle handling (dependency: assumed to return a fresh tree when '
     'the file is newer than the cache entry)',
